@@ -47,7 +47,10 @@ func nodeCases() ([]Case, int) {
 	if s := os.Getenv("C09_NODE_LEN"); s != "" {
 		fmt.Sscan(s, &n)
 	}
-	cases := append(Corpus(), Enumerate(b)...)
+	cases := Corpus()
+	for _, g := range Enumerate(b) {
+		cases = append(cases, g.Case())
+	}
 	if only := os.Getenv("C09_ONLY"); only != "" {
 		var f []Case
 		for _, c := range cases {
